@@ -154,6 +154,15 @@ def length_sweep(quick):
             out.append([ev("xarr", "bytes", (), 0, "", [dict(key=[], v=canon(b), i=[], s=[]) for b in txt])])
             out.append([ev("arrS", "arrS", (), -1, "any")] + [ev("nil", "nil")] * min(L, 40) + [ev("arrE", "arrE")])
             out.append([ev("arrS", "arrS", (), min(L, 40), "any")] + [ev("bool", "bool", [1])] * min(L, 40) + [ev("arrE", "arrE")])
+    # element counts around the length classes of the binary formats and the pre-allocation limits of consumers
+    for n in ([23, 24, 25, 255, 256, 257] if quick else [23, 24, 25, 255, 256, 257, 4095, 4096, 4097]):
+        out.append([ev("arrS", "arrS", (), n, "any")] + [ev("nil", "nil")] * n + [ev("arrE", "arrE")])
+        out.append([ev("arrS", "arrS", (), -1, "any")] + [ev("int", "uint8", canon(j % 200)) for j in range(n)] + [ev("arrE", "arrE")])
+        out.append([ev("xarr", "int8", (), 0, "", [dict(key=[], v=canon(j % 100), i=[], s=[]) for j in range(n)])])
+        out.append([ev("xarr", "bool", (), 0, "", [dict(key=[], v=[j % 2], i=[], s=[]) for j in range(n)])])
+        if n <= 300:
+            out.append([ev("objS", "objS", (), n, "any")] + [x for j in range(n) for x in (ev("key", "key", list(b"k%d" % j)), ev("bool", "bool", [j % 2]))] + [ev("objE", "objE")])
+            out.append([ev("xarr", "str", (), 0, "", [dict(key=[], v=list(b"s%d" % j), i=[], s=[]) for j in range(n)])])
     return out
 
 
